@@ -194,6 +194,21 @@ def cancelLease (h : Bytes → Bytes) (f : File) (secret : Bytes) : Option File 
     if keep.length = 0 then (none, 72 * removed + f3.length, none)
     else (some f3, 72 * removed, none)
 
+/-- `ShareFile(filename, max_size, create=True)` followed by `add_lease(lease_info)` — what `BucketWriter.__init__`
+    does: a 12-byte header (NEWEST schema = v2, lease count 0), then the lease record written at the instance's
+    `_lease_offset = max_size + 0x0c` (the share-data area in between is a hole of zero bytes), then count 1 -/
+def createWithLease (h : Bytes → Bytes) (maxSize : Nat) (li : Lease) : File :=
+  let f0 := packU32 2 ++ packU32 (min (2 ^ 32 - 1) maxSize) ++ packU32 0
+  let f1 := pwrite f0 (12 + maxSize) (serImm (toStored h .v2 li))
+  pwrite f1 8 (packU32 1)
+
+/-- `ShareFile.write_share_data(offset, data)`; `maxSize` is the instance's `_max_size` (`None` for a
+    container opened on an existing file).  `offset` counts from the start of the share DATA. -/
+def writeShareData (f : File) (maxSize : Option Nat) (off : Nat) (d : Bytes) : Except Err File :=
+  match maxSize with
+  | some m => if off + d.length > m then .error .dataTooLarge else .ok (pwrite f (12 + off) d)
+  | none => .ok (pwrite f (12 + off) d)
+
 /-- container invariant: valid version, header present, the lease area fits -/
 def WF (f : File) : Prop :=
   (schemaOf f).isSome ∧ 12 + numLeases f * 72 ≤ f.length
